@@ -259,7 +259,11 @@ def split_groups(props, mode=True):
         c = prop_class({"property": name, "description": desc})
         if mode == "cut" and desc.startswith("compress:"):
             loc = p.get("sourceLocation") or {}
-            bylines.setdefault((loc.get("function"), loc.get("line")), []).append(name)
+            if re.search(r"\d", desc):  # switch-generated per-round assertion (contracts/compress_switch.h): one run per round number
+                key = re.sub(r"schedule word of round", "round", desc)
+            else:
+                key = (loc.get("function"), loc.get("line"))
+            bylines.setdefault(key, []).append(name)
             continue
         if "vf_canary" in desc:
             hard.append([name])
